@@ -668,6 +668,8 @@ def mutate(doc, r, v11):
             atts.append({"pre": " ", "name": "zz", "eq": ("", ""), "q": '"', "val": [("raw", bad)]}); t["atts"] = atts
             setroot((el[0], t) + tuple(el[2:]))
         else:
+            if not bad.endswith(";"):
+                bad += "<!---->"        # a following sibling must not supply the missing ';'
             setroot(with_kid(el, ("leaf", ("raw", bad)), r))
     elif k == "undeclared_entity":
         n = r.choice(["nbsp", "LT", "e", "a.b", "Amp"])
@@ -819,7 +821,8 @@ def mutate(doc, r, v11):
             if close and r.chance(1, 3):
                 open_ = "<" + nm + atts + ">"; close = "</ " + e[3] + ">"
             elif not close and r.chance(1, 3):
-                open_ = "<" + nm + atts + r.choice(["/ >", "/", "//>"])
+                # (a bare "/" must not be followed by a sibling that starts with ">": character data may)
+                open_ = "<" + nm + atts + r.choice(["/ >", "/<!---->", "//>"])
         elif k == "bad_name":
             bn = r.choice(["1a", "-a", ".a", "a b", "a%", "a!", "×", "a×", "̀a", "a←", "‿", "", "a;", "a퟿", "a\U000F0000", "\U000F0000a", "a\U0010FFFFb", "a\U000FFFFE"])
             open_ = "<" + bn + atts + (">" if close else "/>")
@@ -1129,6 +1132,45 @@ def supp_matrix(thorough=False):
                                 "kind": "supp:%s:%s:U+%X:%s" % (kind, pos, cp, "1.1" if v11 else "1.0")})
     return out
 
+# ---- many attributes with exactly one duplicate.  The scanners detect duplicates with hash sets that grow while the start
+# tag is read (Hash2KeysSetOf: modulus 7, rehash at 4 x modulus = the 29th, then the 229th distinct attribute), switch
+# strategy beyond 100 attributes, and treat the last attribute separately in places; so the family puts the duplicated
+# attribute first / at and around each threshold / in the middle / last, and its repetition right after it or at the end.
+# The sets keep their size from earlier start tags and documents of the same parser object, so each witness runs on
+# freshly created parsers ("FRESH:" in the harness protocol): a grown table hides the growth step.
+DUP_COUNTS = [2, 5, 27, 28, 29, 30, 31, 57, 99, 100, 101, 102, 228, 229, 230]
+DUP_COUNTS_QUICK = [2, 28, 29, 30, 57, 100, 101, 229, 230]
+# all 4 scanners x namespaces on/off through SAXParser, the other three APIs on two scanner settings
+DUP_CONFIGS = ",".join(["sax/%s/%d" % (s, n) for s in SCANNERS_ALL for n in (0, 1)] +
+                       ["%s/%s" % (a, c) for a in ("sax2", "dom", "ls") for c in ("IG/0", "SG/1")])
+
+def dupattr_family(thorough=False):
+    out = []
+    for n in (DUP_COUNTS if thorough else DUP_COUNTS_QUICK):
+        names = ["a%d" % i for i in range(n)]
+        origs = sorted({0, n // 2, n - 1} | {i for i in (26, 27, 28, 29, 30, 99, 100, 227, 228, 229) if i < n})
+        for i in origs:
+            for where in ("next", "last"):
+                atts = ["%s='v'" % x for x in names]
+                rep = "%s='w'" % names[i]
+                if where == "next":
+                    atts.insert(i + 1, rep)
+                else:
+                    atts.append(rep)
+                out.append({"bytes": enc("<e " + " ".join(atts) + "/>"), "expect": "fatal",
+                            "kind": "dupattr:%d attributes, attribute #%d repeated %s" % (n, i + 1, "right after it" if where == "next" else "at the end")})
+        # the same count without a duplicate is well-formed
+        out.append({"bytes": enc("<e " + " ".join("%s='v'" % x for x in names) + "></e>"), "expect": "ok", "kind": "dupattr:%d distinct attributes" % n})
+        # duplicate expanded name (two prefixes, one namespace name): fatal with namespaces on only
+        if n >= 5:
+            for i in sorted({0, n // 2, n - 3} | {j for j in (27, 28, 29, 99, 100, 227, 228) if j < n - 2}):
+                atts = ["%s='v'" % x for x in names[:n - 2]]
+                atts.insert(i, "p:z='1'")
+                for tail in (["xmlns:p='u'", "xmlns:q='u'", "q:z='2'"], ["q:z='2'", "xmlns:p='u'", "xmlns:q='u'"]):
+                    out.append({"bytes": enc("<e " + " ".join(atts + tail) + "/>"), "expect": "nsfatal",
+                                "kind": "dupattr:%d attributes, expanded name of attribute #%d repeated" % (n + 2, i + 1)})
+    return out
+
 # documents parsed one after the other by the SAME parser objects; the verdict of the last one is judged
 SEQUENCES = [
     ([b"<?xml version='1.1'?><a/>"], b"<a>\x7f</a>", "1.0 document after a 1.1 document: DEL is a legal character"),
@@ -1228,6 +1270,9 @@ def has_doctype(b):
     return b"<!DOCTYPE" in b
 
 def cfgword(case):
+    # the duplicate-attribute witnesses must be the first document their parser objects see (see dupattr_family)
+    if case.get("kind", "").startswith("dupattr:"):
+        return "FRESH:" + DUP_CONFIGS
     return "DTD" if has_doctype(case["bytes"]) else "ALL"
 
 def correspondence(ctx):
@@ -1260,9 +1305,10 @@ def correspondence(ctx):
     # ---- (2) generated documents
     n_valid, n_mal = (8000, 16000) if th else (350, 750)
     cases, cov, mk = gen_streams(ctx, n_valid, n_mal)
-    supp = supp_matrix(th)
+    supp = supp_matrix(th) + dupattr_family(th)
     cases = [{"bytes": b, "expect": e, "kind": "corpus:" + w} for b, e, w in CORPUS] + supp + cases
-    stats["supplementary_name_matrix"] = {"documents": len(supp), "code_points": sorted({c["kind"].split(":")[3] for c in supp}),
+    stats["duplicate_attribute_family"] = {"documents": sum(1 for c in supp if c["kind"].startswith("dupattr:")), "attribute_counts": DUP_COUNTS if th else DUP_COUNTS_QUICK, "configurations": DUP_CONFIGS, "parsers": "created anew for every witness"}
+    stats["supplementary_name_matrix"] = {"documents": sum(1 for c in supp if c["kind"].startswith("supp:")), "code_points": sorted({c["kind"].split(":")[3] for c in supp if c["kind"].startswith("supp:")}),
                                           "rule": "15 name kinds x initial/non-initial/final x XML 1.0/1.1, every configuration"}
     res, crashes = run_cases(ctx, cases, cfgword)
     best = {}
@@ -1270,6 +1316,7 @@ def correspondence(ctx):
     elicited = {}
     evals = 0
     specdis = {}
+    overruled = {}
     distinct = set()
     for c, (ref, o, bad) in zip(cases, res):
         cls, why = ref_class(ref)
@@ -1283,21 +1330,38 @@ def correspondence(ctx):
                 nm = code_name(tok).split("+")[0].split("!")[0]
                 elicited[nm] = elicited.get(nm, 0) + 1
         record(ctx, best, c, ref, o, bad, "curated corpus" if c["kind"].startswith("corpus") else
-               ("supplementary-plane name matrix, " + c["kind"][5:]) if c["kind"].startswith("supp:") else "generated stream")
-        # generator expectation vs reference (spec disagreement: generator / renderer / reference bug)
+               ("supplementary-plane name matrix, " + c["kind"][5:]) if c["kind"].startswith("supp:") else
+               ("duplicate-attribute family, " + c["kind"][8:]) if c["kind"].startswith("dupattr:") else "generated stream")
+        # The reference is the judge.  The expectation attached to a case is a third opinion:
+        #  * fixed families (curated corpus, name matrix, duplicate-attribute family) carry hand-checked expectations and
+        #    involve no randomness: a disagreement with the reference means the reference (or the family) is wrong and is
+        #    reported as corr:xmlwf-corpus;
+        #  * random streams label a case by the mutation applied; a random neighbour can neutralise a mutation (a sibling
+        #    starting with '>' after an inserted '/'), so such a disagreement is not evidence about the library.  If the
+        #    library contradicts the reference on that document, the judge has already recorded a concrete violation;
+        #    if the library agrees with the reference (two independent readings of the text against one label) it is
+        #    logged in the evidence (generator_expectation_overruled) and in the notes, never printed as a violation.
+        #    What this cannot see is an error common to reference and library on a randomly generated shape only; the
+        #    fixed families and the Lean theorems (accepted <=> rendering of a WF tree) are the guard against that.
         if cls != "unsupported" and c["expect"] is not None and cls != c["expect"]:
-            k = "%s:expected-%s-reference-%s" % (c["kind"], c["expect"], cls)
-            if k not in specdis or len(c["bytes"]) < len(specdis[k][0]):
-                specdis[k] = (c["bytes"], ref)
+            k = "%s:expected-%s-reference-%s" % (c["kind"].split(",")[0], c["expect"], cls)
+            fixed = c["kind"].startswith(("corpus:", "supp:", "dupattr:"))
+            tgt = specdis if fixed else overruled
+            if k not in tgt or len(c["bytes"]) < len(tgt[k][0]):
+                tgt[k] = (c["bytes"], ref, bool(bad))
     stats["generated_documents"] = len(cases)
     stats["reference_verdicts"] = hist
     stats["mutation_kinds"] = mk
     stats["constructor_coverage"] = dict(sorted(cov.items()))
     stats["spec_disagreements"] = {k: show(v[0]) + " => " + v[1] for k, v in specdis.items()}
+    stats["generator_expectation_overruled"] = {k: show(v[0]) + " => " + v[1] + (" (library contradicts the reference: reported)" if v[2] else " (library agrees with the reference)")
+                                                for k, v in overruled.items()}
+    if overruled:
+        ctx.notes.append("%d random case categories whose mutation label was overruled by the reference (see stats.generator_expectation_overruled)" % len(overruled))
     if specdis:
-        k, (b, ref) = sorted(specdis.items())[0]
-        ctx.violations.append({"key": "corr:xmlwf-generator", "concrete": False,
-            "what": "generator expectation and reference verdict differ in %d categories, e.g. %s: %r => %s (generator/renderer or reference bug; not a library defect)" % (len(specdis), k, show(b), ref),
+        k, (b, ref, _) = sorted(specdis.items())[0]
+        ctx.violations.append({"key": "corr:xmlwf-corpus", "concrete": False,
+            "what": "hand-checked expectation of a fixed witness and reference verdict differ in %d categories, e.g. %s: %r => %s (reference or witness family wrong; not a library defect)" % (len(specdis), k, show(b), ref),
             "replay": {"tier": "doc", "bytes": hexbytes(b), "configs": "ALL", "reference": ref}})
     common.log("C02 generated stream done (%d documents)" % len(cases))
     # ---- (3) exhaustive short strings
@@ -1384,7 +1448,7 @@ def search(ctx, broken):
             return f
     # (ii) the generator corpus at a larger budget, judged by the reference alone
     cases, _, _ = gen_streams(ctx, 400, 900)
-    cases = [{"bytes": b, "expect": e, "kind": "corpus:" + w} for b, e, w in CORPUS] + supp_matrix() + cases
+    cases = [{"bytes": b, "expect": e, "kind": "corpus:" + w} for b, e, w in CORPUS] + supp_matrix() + dupattr_family() + cases
     res, _ = run_cases(ctx, cases, cfgword)
     best = {}
     for c, (ref, o, bad) in zip(cases, res):
